@@ -1,5 +1,517 @@
-From Coq Require Import ZArith List Bool Lia.
+(* C14 (codec half) — proofs about coq/C14/SbsModel.v.
+   Part 1: the input bit stream as a list of nodes; abstract decoder loop; no panic, fuel sufficient.
+   Part 2: agreement with the specification's algorithm (SbsSpec.v).
+   Part 3: round trip (SbsRoundtrip.v). *)
+From Coq Require Import ZArith List Bool Lia Arith PeanoNat ZifyNat.
 From FV Require Import Lib.RustInt C14.SbsModel.
 Import ListNotations.
 Open Scope Z_scope.
-Lemma placeholder : True. Proof. exact I. Qed.
+Ltac Zify.zify_post_hook ::= Z.to_euclidean_division_equations.
+
+(* ------------------------------------------------------------------------------------------ *)
+(* branch factors *)
+Lemma bf_cases bf : bf_valid bf = true -> bf = 2 \/ bf = 4 \/ bf = 8 \/ bf = 32.
+Proof. unfold bf_valid. lia. Qed.
+
+Lemma bf_of_bits_valid c : bf_valid (bf_of_bits c) = true.
+Proof. unfold bf_of_bits. repeat (destruct (_ =? _)); reflexivity. Qed.
+
+(* ------------------------------------------------------------------------------------------ *)
+(* the stream of nodes of a tree-data byte list, by recursion on the bytes *)
+Definition n2 (b si : Z) : Z := Z.shiftr (Z.land b (Z.shiftl 3 si)) si.
+Definition n4 (b si : Z) : Z := Z.shiftr (Z.land b (Z.shiftl 15 si)) si.
+Fixpoint nodes32 (l : list Z) : list Z :=
+  match l with
+  | b1 :: b2 :: b3 :: b4 :: r =>
+      Z.lor (Z.lor (Z.lor b1 (Z.shiftl b2 8)) (Z.shiftl b3 16)) (Z.shiftl b4 24) :: nodes32 r
+  | _ => []
+  end.
+Definition all_nodes (bf : Z) (tree : list Z) : list Z :=
+  if bf =? 2 then flat_map (fun b => [n2 b 0; n2 b 2; n2 b 4; n2 b 6]) tree
+  else if bf =? 4 then flat_map (fun b => [n4 b 0; n4 b 4]) tree
+  else if bf =? 8 then tree
+  else nodes32 tree.
+
+(* stream state after reading i nodes *)
+Definition st_of_index (bf : Z) (i : nat) : ibs :=
+  if bf =? 2 then (S (i / 4), Z.of_nat (2 * (i mod 4)))
+  else if bf =? 4 then (S (i / 2), Z.of_nat (4 * (i mod 2)))
+  else if bf =? 8 then (S i, 0)
+  else (S (4 * i), 0).
+
+Lemma st_of_index_0 bf : st_of_index bf 0 = ibs_init.
+Proof. unfold st_of_index, ibs_init. repeat (destruct (_ =? _)); reflexivity. Qed.
+
+Lemma nth_error_nil' {A} n : @nth_error A [] n = None.
+Proof. destruct n; reflexivity. Qed.
+
+Lemma nth_flat_map4 {A B} (f0 f1 f2 f3 : A -> B) l : forall i,
+  nth_error (flat_map (fun b => [f0 b; f1 b; f2 b; f3 b]) l) i =
+  match nth_error l (i / 4) with
+  | Some b => Some (match (i mod 4)%nat with 0%nat => f0 b | 1%nat => f1 b | 2%nat => f2 b | _ => f3 b end)
+  | None => None
+  end.
+Proof.
+  induction l as [|b r IH]; intros i.
+  - cbn [flat_map]. rewrite !nth_error_nil'. reflexivity.
+  - destruct i as [|[|[|[|i]]]]; try reflexivity.
+    cbn [flat_map app nth_error]. rewrite IH.
+    replace (S (S (S (S i))) / 4)%nat with (S (i / 4)) by lia.
+    replace (S (S (S (S i))) mod 4)%nat with (i mod 4)%nat by lia.
+    reflexivity.
+Qed.
+
+Lemma nth_flat_map2 {A B} (f0 f1 : A -> B) l : forall i,
+  nth_error (flat_map (fun b => [f0 b; f1 b]) l) i =
+  match nth_error l (i / 2) with
+  | Some b => Some (match (i mod 2)%nat with 0%nat => f0 b | _ => f1 b end)
+  | None => None
+  end.
+Proof.
+  induction l as [|b r IH]; intros i.
+  - cbn [flat_map]. rewrite !nth_error_nil'. reflexivity.
+  - destruct i as [|[|i]]; try reflexivity.
+    cbn [flat_map app nth_error]. rewrite IH.
+    replace (S (S i) / 2)%nat with (S (i / 2)) by lia.
+    replace (S (S i) mod 2)%nat with (i mod 2)%nat by lia.
+    reflexivity.
+Qed.
+
+Lemma nth_nodes32 l : forall i,
+  nth_error (nodes32 l) i =
+  match nth_error l (4 * i), nth_error l (4 * i + 1), nth_error l (4 * i + 2), nth_error l (4 * i + 3) with
+  | Some b1, Some b2, Some b3, Some b4 =>
+      Some (Z.lor (Z.lor (Z.lor b1 (Z.shiftl b2 8)) (Z.shiftl b3 16)) (Z.shiftl b4 24))
+  | _, _, _, _ => None
+  end.
+Proof.
+  intros i. revert l. induction i as [|i IH]; intros l.
+  - destruct l as [|b1 [|b2 [|b3 [|b4 r]]]]; reflexivity.
+  - destruct l as [|b1 [|b2 [|b3 [|b4 r]]]].
+    + cbn. reflexivity.
+    + cbn [nodes32]. replace (4 * S i)%nat with (S (S (S (S (4 * i))))) by lia. cbn. destruct (4 * i)%nat; reflexivity.
+    + cbn [nodes32]. replace (4 * S i)%nat with (S (S (S (S (4 * i))))) by lia. cbn. destruct (4 * i)%nat; reflexivity.
+    + cbn [nodes32]. replace (4 * S i)%nat with (S (S (S (S (4 * i))))) by lia. cbn. destruct (4 * i)%nat; reflexivity.
+    + cbn [nodes32 nth_error]. rewrite IH.
+      replace (4 * S i)%nat with (S (S (S (S (4 * i))))) by lia. reflexivity.
+Qed.
+
+Lemma succ_div_mod4 i :
+  ((i mod 4 = 3 /\ S i / 4 = S (i / 4) /\ S i mod 4 = 0) \/
+   (i mod 4 < 3 /\ S i / 4 = i / 4 /\ S i mod 4 = S (i mod 4)))%nat.
+Proof. lia. Qed.
+
+Lemma succ_div_mod2 i :
+  ((i mod 2 = 1 /\ S i / 2 = S (i / 2) /\ S i mod 2 = 0) \/
+   (i mod 2 = 0 /\ S i / 2 = i / 2 /\ S i mod 2 = 1))%nat.
+Proof. lia. Qed.
+
+(* reading the (i+1)-th node *)
+Lemma ibs_next_index bf h tree i : bf_valid bf = true ->
+  ibs_next bf (h :: tree) (st_of_index bf i) =
+  match nth_error (all_nodes bf tree) i with
+  | Some v => Some (v, st_of_index bf (S i))
+  | None => None
+  end.
+Proof.
+  intros Hbf. destruct (bf_cases _ Hbf) as [-> | [-> | [-> | ->]]]; unfold st_of_index, all_nodes, ibs_next;
+    cbn [Z.eqb Pos.eqb orb nth_error].
+  - rewrite nth_flat_map4. destruct (nth_error tree (i / 4)) as [b|]; [|reflexivity].
+    pose proof (Nat.mod_upper_bound i 4 ltac:(lia)) as Hm.
+    destruct (succ_div_mod4 i) as [(E & E1 & E2) | (E & E1 & E2)]; rewrite E1, E2.
+    + rewrite E. reflexivity.
+    + destruct (i mod 4)%nat as [|[|[|k]]]; try lia; reflexivity.
+  - rewrite nth_flat_map2. destruct (nth_error tree (i / 2)) as [b|]; [|reflexivity].
+    destruct (succ_div_mod2 i) as [(E & E1 & E2) | (E & E1 & E2)]; rewrite E1, E2, E; reflexivity.
+  - destruct (nth_error tree i); reflexivity.
+  - rewrite nth_nodes32.
+    replace (S (4 * i) + 1)%nat with (S (4 * i + 1)) by lia.
+    replace (S (4 * i) + 2)%nat with (S (4 * i + 2)) by lia.
+    replace (S (4 * i) + 3)%nat with (S (4 * i + 3)) by lia.
+    cbn [nth_error].
+    destruct (nth_error tree (4 * i)); [|reflexivity].
+    destruct (nth_error tree (4 * i + 1)); [|reflexivity].
+    destruct (nth_error tree (4 * i + 2)); [|reflexivity].
+    destruct (nth_error tree (4 * i + 3)); [|reflexivity].
+    do 3 f_equal. lia.
+Qed.
+
+(* ------------------------------------------------------------------------------------------ *)
+(* abstract decoder loop over the node list; i = absolute index of the next node *)
+Inductive ares := ADone (i : nat) (q out : list (Z * Z)) | AErr | APanic.
+
+Fixpoint aloop (bf H bias maxv : Z) (ns : list Z) (i : nat) (q out : list (Z * Z)) : ares :=
+  match q with
+  | [] => ADone i [] out
+  | (start, depth) :: q' =>
+      match ns with
+      | [] => AErr
+      | bits :: ns' =>
+          if bits =? 0 then
+            match filled_range bf H bias maxv start depth with
+            | None => APanic
+            | Some None => aloop bf H bias maxv ns' (S i) q' out
+            | Some (Some r) => aloop bf H bias maxv ns' (S i) q' (r :: out)
+            end
+          else if H <? depth then APanic else
+          match pow_u64 bf (H - depth) with
+          | None => APanic
+          | Some nns =>
+              match bits_loop (set_bits bits) H bias maxv start depth nns q' out with
+              | None => APanic
+              | Some (true, q2, out2) => ADone (S i) q2 out2
+              | Some (false, q2, out2) => aloop bf H bias maxv ns' (S i) q2 out2
+              end
+          end
+      end
+  end.
+
+Definition lift (bf : Z) (r : ares) : lres :=
+  match r with
+  | ADone i q out => LDone (st_of_index bf i) q out
+  | AErr => LErr
+  | APanic => LPanic
+  end.
+
+Lemma dec_loop_aloop bf h tree H bias maxv : bf_valid bf = true ->
+  forall i fuel q out,
+  (length (all_nodes bf tree) - i < fuel)%nat ->
+  dec_loop fuel bf (h :: tree) H bias maxv (st_of_index bf i) q out =
+  lift bf (aloop bf H bias maxv (skipn i (all_nodes bf tree)) i q out).
+Proof.
+  intros Hbf i fuel. revert i. induction fuel as [|f IH]; intros i q out Hf; [lia|].
+  destruct q as [|[start depth] q'].
+  - cbn. destruct (skipn i _); reflexivity.
+  - cbn [dec_loop]. rewrite ibs_next_index by assumption.
+    destruct (nth_error (all_nodes bf tree) i) as [v|] eqn:En.
+    + assert (Hs : skipn i (all_nodes bf tree) = v :: skipn (S i) (all_nodes bf tree)).
+      { clear - En. revert i En. induction (all_nodes bf tree) as [|a l IHl]; intros [|i] En; cbn in *; try discriminate.
+        - congruence. - apply IHl; assumption. }
+      rewrite Hs. cbn [aloop].
+      assert (Hi : (i < length (all_nodes bf tree))%nat) by (apply nth_error_Some; congruence).
+      assert (Hf' : (length (all_nodes bf tree) - S i < f)%nat) by lia.
+      destruct (v =? 0).
+      * destruct (filled_range bf H bias maxv start depth) as [[r|]|]; cbn [lift]; try reflexivity; apply IH; assumption.
+      * destruct (H <? depth); [reflexivity|].
+        destruct (pow_u64 bf (H - depth)) as [nns|]; [|reflexivity].
+        destruct (bits_loop _ _ _ _ _ _ _ _ _) as [[[[|] q2] out2]|]; try reflexivity.
+        apply IH; assumption.
+    + assert (Hs : skipn i (all_nodes bf tree) = []).
+      { apply nth_error_None in En. apply skipn_all2. assumption. }
+      rewrite Hs. reflexivity.
+Qed.
+
+Lemma all_nodes_length bf tree : bf_valid bf = true ->
+  (Z.of_nat (length (all_nodes bf tree)) * bf <= 8 * Z.of_nat (length tree)).
+Proof.
+  intros Hbf. destruct (bf_cases _ Hbf) as [-> | [-> | [-> | ->]]]; unfold all_nodes; cbn [Z.eqb Pos.eqb].
+  - induction tree; cbn [flat_map length app] in *; lia.
+  - induction tree; cbn [flat_map length app] in *; lia.
+  - lia.
+  - assert (G : forall n l, (length l <= n)%nat -> Z.of_nat (length (nodes32 l)) * 32 <= 8 * Z.of_nat (length l)).
+    { induction n; intros l Hl.
+      - destruct l; cbn in *; lia.
+      - destruct l as [|b1 [|b2 [|b3 [|b4 r]]]]; cbn [nodes32 length] in *; try lia.
+        specialize (IHn r ltac:(lia)). lia. }
+    apply (G (length tree)). lia.
+Qed.
+
+(* ------------------------------------------------------------------------------------------ *)
+(* node values are below 2^bf when the data are bytes *)
+Definition is_byteb (b : Z) : bool := (0 <=? b) && (b <? 256).
+
+Lemma land_shr_eq b k si : 0 <= si -> 0 <= k ->
+  Z.shiftr (Z.land b (Z.shiftl (Z.ones k) si)) si = (Z.shiftr b si) mod 2 ^ k.
+Proof.
+  intros Hsi Hk.
+  rewrite Z.shiftr_land. rewrite Z.shiftr_shiftl_l by lia. rewrite Z.sub_diag, Z.shiftl_0_r.
+  apply Z.land_ones. assumption.
+Qed.
+
+Lemma land_shr_bound b k si : 0 <= si -> 0 <= k ->
+  0 <= Z.shiftr (Z.land b (Z.shiftl (Z.ones k) si)) si < 2 ^ k.
+Proof.
+  intros Hsi Hk. rewrite land_shr_eq by assumption. apply Z.mod_pos_bound. apply Z.pow_pos_nonneg; lia.
+Qed.
+
+Lemma all_nodes_bound bf tree : bf_valid bf = true -> Forall is_byte tree ->
+  Forall (fun v => 0 <= v < 2 ^ bf) (all_nodes bf tree).
+Proof.
+  intros Hbf HF. destruct (bf_cases _ Hbf) as [-> | [-> | [-> | ->]]]; unfold all_nodes; cbn [Z.eqb Pos.eqb].
+  - induction HF as [|b r Hb _ IH]; cbn [flat_map app]; [constructor|].
+    unfold is_byte in Hb.
+    repeat constructor; try assumption; unfold n2;
+      match goal with |- context [Z.shiftl 3 ?s] => pose proof (land_shr_bound b 2 s ltac:(lia) ltac:(lia)) as Hx; change (Z.ones 2) with 3 in Hx; lia end.
+  - induction HF as [|b r Hb _ IH]; cbn [flat_map app]; [constructor|].
+    unfold is_byte in Hb.
+    repeat constructor; try assumption; unfold n4;
+      match goal with |- context [Z.shiftl 15 ?s] => pose proof (land_shr_bound b 4 s ltac:(lia) ltac:(lia)) as Hx; change (Z.ones 4) with 15 in Hx; lia end.
+  - eapply Forall_impl; [|exact HF]. unfold is_byte. intros a Ha. change (2 ^ 8) with 256. lia.
+  - assert (G : forall n l, (length l <= n)%nat -> Forall is_byte l -> Forall (fun v => 0 <= v < 2 ^ 32) (nodes32 l)).
+    { induction n; intros l Hl Hby.
+      - destruct l; cbn in *; [constructor | lia].
+      - destruct l as [|b1 [|b2 [|b3 [|b4 r]]]]; cbn [nodes32 length] in *; try constructor.
+        + inversion Hby as [|? ? H1 Hby1]; subst. inversion Hby1 as [|? ? H2 Hby2]; subst.
+          inversion Hby2 as [|? ? H3 Hby3]; subst. inversion Hby3 as [|? ? H4 Hby4]; subst.
+          unfold is_byte in *.
+          rewrite !Z.shiftl_mul_pow2 by lia.
+          assert (E : forall x y, 0 <= x -> 0 <= y -> 0 <= Z.lor x y < 2 ^ 32 <-> (0 <= x < 2 ^ 32 /\ 0 <= y < 2 ^ 32)).
+          { intros x y Hx Hy. split.
+            - intros [_ Hl2]. assert (0 <= Z.lor x y) by (apply Z.lor_nonneg; lia).
+              destruct (Z.eq_dec (Z.lor x y) 0) as [E0|NE].
+              + apply Z.lor_eq_0_iff in E0. lia.
+              + apply Z.log2_lt_pow2 in Hl2; [|lia]. rewrite Z.log2_lor in Hl2 by lia.
+                split; split; try lia.
+                * destruct (Z.eq_dec x 0); [lia|]. apply Z.log2_lt_pow2; lia.
+                * destruct (Z.eq_dec y 0); [lia|]. apply Z.log2_lt_pow2; lia.
+            - intros [[_ Hx2] [_ Hy2]]. split; [apply Z.lor_nonneg; lia|].
+              destruct (Z.eq_dec (Z.lor x y) 0) as [E0|NE]; [lia|].
+              assert (0 <= Z.lor x y) by (apply Z.lor_nonneg; lia).
+              apply Z.log2_lt_pow2; [lia|]. rewrite Z.log2_lor by lia.
+              destruct (Z.eq_dec x 0) as [->|]; destruct (Z.eq_dec y 0) as [->|]; cbn [Z.log2]; try lia.
+              * rewrite Z.max_r by (apply Z.log2_nonneg). apply Z.log2_lt_pow2; lia.
+              * rewrite Z.max_l by (apply Z.log2_nonneg). apply Z.log2_lt_pow2; lia.
+              * apply Z.max_lub_lt; apply Z.log2_lt_pow2; lia. }
+          apply E; [apply Z.lor_nonneg; split; [apply Z.lor_nonneg|]; lia | lia |].
+          split; [|lia].
+          apply E; [apply Z.lor_nonneg; lia | lia |].
+          split; [|lia].
+          apply E; lia.
+        + apply IHn; [lia|]. inversion Hby as [|? ? _ Hby1]; subst. inversion Hby1 as [|? ? _ Hby2]; subst.
+          inversion Hby2 as [|? ? _ Hby3]; subst. inversion Hby3; subst. assumption. }
+    apply (G (length tree)); [lia | assumption].
+Qed.
+
+(* ------------------------------------------------------------------------------------------ *)
+(* set_bits *)
+Lemma set_bits_from_in n : forall i v j, In j (set_bits_from n i v) -> i <= j < i + Z.of_nat n /\ Z.testbit v j = true.
+Proof.
+  induction n as [|n IH]; intros i v j Hin; cbn [set_bits_from] in Hin; [contradiction|].
+  destruct (Z.testbit v i) eqn:E.
+  - destruct Hin as [<- | Hin]; [split; [lia | assumption]|]. apply IH in Hin. destruct Hin; split; [lia | assumption].
+  - apply IH in Hin. destruct Hin; split; [lia | assumption].
+Qed.
+
+Lemma testbit_small v bf j : 0 <= v < 2 ^ bf -> bf <= j -> Z.testbit v j = false.
+Proof.
+  intros Hv Hj. destruct (Z.eq_dec v 0) as [->|]; [apply Z.bits_0|].
+  apply Z.bits_above_log2; [lia|].
+  assert (Z.log2 v < bf) by (apply Z.log2_lt_pow2; lia). lia.
+Qed.
+
+Lemma set_bits_in v bf j : 0 <= bf -> 0 <= v < 2 ^ bf -> In j (set_bits v) -> 0 <= j < bf /\ j < 32.
+Proof.
+  intros Hbf Hv Hin. apply set_bits_from_in in Hin. destruct Hin as [Hr Ht].
+  split; [|lia]. split; [lia|].
+  destruct (Z_lt_le_dec j bf); [assumption|].
+  rewrite (testbit_small v bf j) in Ht by lia. discriminate.
+Qed.
+
+Lemma set_bits_from_app a : forall b i v,
+  set_bits_from (a + b) i v = set_bits_from a i v ++ set_bits_from b (i + Z.of_nat a) v.
+Proof.
+  induction a as [|a IH]; intros b i v.
+  - cbn. f_equal. lia.
+  - cbn [Nat.add set_bits_from]. rewrite IH. replace (i + 1 + Z.of_nat a) with (i + Z.of_nat (S a)) by lia.
+    destruct (Z.testbit v i); reflexivity.
+Qed.
+
+Lemma set_bits_from_nil n : forall i v, (forall j, i <= j -> Z.testbit v j = false) -> set_bits_from n i v = [].
+Proof.
+  induction n as [|n IH]; intros i v Hz; cbn [set_bits_from]; [reflexivity|].
+  rewrite Hz by lia. apply IH. intros j Hj. apply Hz. lia.
+Qed.
+
+Lemma set_bits_from_length n : forall i v, (length (set_bits_from n i v) <= n)%nat.
+Proof.
+  induction n as [|n IH]; intros i v; cbn [set_bits_from]; [lia|].
+  specialize (IH (i + 1) v). destruct (Z.testbit v i); cbn [length]; lia.
+Qed.
+
+Lemma set_bits_trunc v bf : 0 <= bf <= 32 -> 0 <= v < 2 ^ bf -> set_bits v = set_bits_from (Z.to_nat bf) 0 v.
+Proof.
+  intros Hbf Hv. unfold set_bits.
+  replace 32%nat with (Z.to_nat bf + (32 - Z.to_nat bf))%nat by lia.
+  rewrite set_bits_from_app. rewrite (set_bits_from_nil _ (0 + _)); [apply app_nil_r|].
+  intros j Hj. apply (testbit_small v bf); lia.
+Qed.
+
+Lemma set_bits_length v bf : 0 <= bf <= 32 -> 0 <= v < 2 ^ bf -> Z.of_nat (length (set_bits v)) <= bf.
+Proof.
+  intros Hbf Hv. rewrite (set_bits_trunc v bf) by assumption.
+  pose proof (set_bits_from_length (Z.to_nat bf) 0 v). lia.
+Qed.
+
+(* ------------------------------------------------------------------------------------------ *)
+(* powers of the branch factor *)
+Lemma bf_pow_max bf H : bf_valid bf = true -> 0 <= H <= max_height bf -> 0 < bf ^ H <= 2 ^ 35.
+Proof.
+  intros Hbf HH. split; [apply Z.pow_pos_nonneg; destruct (bf_cases _ Hbf) as [-> | [-> | [-> | ->]]]; lia|].
+  destruct (bf_cases _ Hbf) as [-> | [-> | [-> | ->]]]; unfold max_height in HH; cbn [Z.eqb Pos.eqb] in HH.
+  - transitivity (2 ^ 31); [apply Z.pow_le_mono_r; lia | apply Z.pow_le_mono_r; lia].
+  - transitivity (4 ^ 16); [apply Z.pow_le_mono_r; lia | vm_compute; discriminate].
+  - transitivity (8 ^ 11); [apply Z.pow_le_mono_r; lia | vm_compute; discriminate].
+  - transitivity (32 ^ 7); [apply Z.pow_le_mono_r; lia | vm_compute; discriminate].
+Qed.
+
+Lemma bf_ge2 bf : bf_valid bf = true -> 2 <= bf <= 32.
+Proof. intros Hbf. destruct (bf_cases _ Hbf) as [-> | [-> | [-> | ->]]]; lia. Qed.
+
+Lemma pow_u64_some bf e : 0 <= bf ^ e < U64 -> pow_u64 bf e = Some (bf ^ e).
+Proof. intros He. unfold pow_u64. cbv zeta. destruct (Z.ltb_spec (bf ^ e) U64); [reflexivity | lia]. Qed.
+
+(* queue entries are sub-intervals of [0, bf^H) at depths 1..H *)
+Definition qwf (bf H : Z) (e : Z * Z) : Prop :=
+  1 <= snd e <= H /\ 0 <= fst e /\ fst e + bf ^ (H - snd e + 1) <= bf ^ H.
+
+Lemma pow_split bf e : 2 <= bf -> 0 <= e -> bf ^ (e + 1) = bf * bf ^ e.
+Proof. intros. rewrite Z.pow_add_r by lia. rewrite Z.pow_1_r. lia. Qed.
+
+Lemma bits_loop_inner H bias maxv start depth nns : depth <> H ->
+  forall idxs q out,
+  (forall j, In j idxs -> 0 <= j /\ j * nns < U64 /\ start + j * nns < U64) ->
+  bits_loop idxs H bias maxv start depth nns q out =
+  Some (false, q ++ map (fun j => (start + j * nns, depth + 1)) idxs, out).
+Proof.
+  intros Hd. induction idxs as [|j r IH]; intros q out Hj; cbn [bits_loop map].
+  - rewrite app_nil_r. reflexivity.
+  - destruct (Z.eqb_spec depth H); [contradiction|].
+    destruct (Hj j (or_introl eq_refl)) as (_ & H1 & H2).
+    destruct (Z.leb_spec U64 (j * nns)); [lia|].
+    destruct (Z.leb_spec U64 (start + j * nns)); [lia|].
+    rewrite IH by (intros; apply Hj; right; assumption).
+    rewrite <- app_assoc. reflexivity.
+Qed.
+
+Lemma bits_loop_leaf H bias maxv start nns : forall idxs q out,
+  exists b out', bits_loop idxs H bias maxv start H nns q out = Some (b, q, out').
+Proof.
+  induction idxs as [|j r IH]; intros q out; cbn [bits_loop].
+  - eauto.
+  - rewrite Z.eqb_refl. destruct (clip_start start j bias maxv); [apply IH | eauto].
+Qed.
+
+Lemma filled_range_ok bf H bias maxv start depth : bf_valid bf = true -> 0 <= H <= max_height bf ->
+  qwf bf H (start, depth) -> filled_range bf H bias maxv start depth <> None.
+Proof.
+  intros Hbf HH (Hd & Hs & He). cbn [fst snd] in *. unfold filled_range.
+  destruct (Z.ltb_spec H depth); [lia|].
+  pose proof (bf_pow_max bf H Hbf HH) as HP.
+  assert (HP2 : 0 < bf ^ (H - depth + 1)) by (apply Z.pow_pos_nonneg; pose proof (bf_ge2 bf Hbf); lia).
+  assert (2 ^ 35 < U64) by (vm_compute; reflexivity).
+  rewrite pow_u64_some by lia.
+  destruct (clip_start start 0 bias maxv); [|discriminate].
+  destruct (Z.leb_spec U64 (start + bf ^ (H - depth + 1))); [lia | discriminate].
+Qed.
+
+Lemma aloop_safe bf H bias maxv : bf_valid bf = true -> 1 <= H <= max_height bf ->
+  forall ns, Forall (fun v => 0 <= v < 2 ^ bf) ns ->
+  forall i q out, Forall (qwf bf H) q ->
+  match aloop bf H bias maxv ns i q out with
+  | APanic => False
+  | AErr => True
+  | ADone i' q' _ => (i <= i' <= i + length ns)%nat /\
+                     Z.of_nat (length q') + bf * Z.of_nat i <= Z.of_nat (length q) + bf * Z.of_nat i' /\
+                     Forall (qwf bf H) q'
+  end.
+Proof.
+  intros Hbf HH ns. pose proof (bf_ge2 bf Hbf) as Hb2.
+  pose proof (bf_pow_max bf H Hbf ltac:(lia)) as HP.
+  assert (HU : 2 ^ 35 < U64) by (vm_compute; reflexivity).
+  induction ns as [|v ns IH]; intros Hns i q out Hq.
+  - destruct q as [|[s d] q]; cbn; [repeat split; try lia; constructor | exact I].
+  - inversion Hns as [|? ? Hv Hns']; subst.
+    destruct q as [|[s d] q]; cbn [aloop]; [repeat split; try lia; constructor|].
+    inversion Hq as [|? ? Hsd Hq']; subst.
+    destruct (v =? 0).
+    + pose proof (filled_range_ok bf H bias maxv s d Hbf ltac:(lia) Hsd) as Hfr.
+      destruct (filled_range bf H bias maxv s d) as [[r|]|]; [| |congruence].
+      * specialize (IH Hns' (S i) q (r :: out) Hq').
+        destruct (aloop _ _ _ _ ns (S i) q (r :: out)); try assumption.
+        cbn [length] in *. destruct IH as (? & ? & ?). repeat split; try assumption; lia.
+      * specialize (IH Hns' (S i) q out Hq').
+        destruct (aloop _ _ _ _ ns (S i) q out); try assumption.
+        cbn [length] in *. destruct IH as (? & ? & ?). repeat split; try assumption; lia.
+    + destruct Hsd as (Hd & Hs & He). cbn [fst snd] in *.
+      destruct (Z.ltb_spec H d); [lia|].
+      assert (HPd : 0 < bf ^ (H - d)) by (apply Z.pow_pos_nonneg; lia).
+      assert (HPs : bf ^ (H - d + 1) = bf * bf ^ (H - d)) by (apply pow_split; lia).
+      rewrite pow_u64_some by nia.
+      destruct (Z.eq_dec d H) as [->|Hne].
+      * destruct (bits_loop_leaf H bias maxv s (bf ^ (H - H)) (set_bits v) q out) as (b & out' & E).
+        rewrite E. destruct b.
+        -- cbn [length]. repeat split; try lia. assumption.
+        -- specialize (IH Hns' (S i) q out' Hq').
+           destruct (aloop _ _ _ _ ns (S i) q out'); try assumption.
+           cbn [length] in *. destruct IH as (? & ? & ?). repeat split; try assumption; lia.
+      * assert (Hj : forall j, In j (set_bits v) -> 0 <= j < bf).
+        { intros j Hin. apply (set_bits_in v bf j) in Hin; lia. }
+        rewrite bits_loop_inner; [|assumption|].
+        2:{ intros j Hin. specialize (Hj j Hin). nia. }
+        assert (Hq2 : Forall (qwf bf H) (q ++ map (fun j => (s + j * bf ^ (H - d), d + 1)) (set_bits v))).
+        { apply Forall_app. split; [assumption|]. apply Forall_forall. intros e Hin.
+          apply in_map_iff in Hin. destruct Hin as (j & <- & Hin). specialize (Hj j Hin).
+          unfold qwf. cbn [fst snd]. replace (H - (d + 1) + 1) with (H - d) by lia. nia. }
+        specialize (IH Hns' (S i) _ out Hq2).
+        destruct (aloop _ _ _ _ ns (S i) _ out); try assumption.
+        destruct IH as (? & Hl & ?). repeat split; try assumption; try (cbn [length]; lia).
+        rewrite app_length, map_length in Hl. cbn [length].
+        pose proof (set_bits_length v bf ltac:(lia) Hv). lia.
+Qed.
+
+(* ------------------------------------------------------------------------------------------ *)
+(* header *)
+Lemma header_height_range h : 0 <= Z.shiftr (Z.land h 124) 2 <= 31.
+Proof.
+  rewrite Z.shiftr_div_pow2 by lia. change (2 ^ 2) with 4.
+  assert (0 <= Z.land h 124 <= 124).
+  { change 124 with (Z.shiftl (Z.ones 5) 2).
+    split; [apply Z.land_nonneg; right; vm_compute; discriminate|].
+    assert (E : Z.land h (Z.shiftl (Z.ones 5) 2) = Z.shiftl (Z.land (Z.shiftr h 2) (Z.ones 5)) 2).
+    { rewrite Z.shiftl_land. rewrite <- (Z.ldiff_ones_r h 2) by lia.
+      apply Z.bits_inj'. intros n Hn. rewrite !Z.land_spec, Z.ldiff_spec.
+      destruct (Z_lt_le_dec n 2).
+      - rewrite (Z.shiftl_spec_low (Z.ones 5)) by lia. rewrite !andb_false_r. reflexivity.
+      - rewrite Z.ones_spec_high by lia. cbn [negb]. rewrite andb_true_r. reflexivity. }
+    rewrite E. rewrite Z.land_ones by lia. rewrite Z.shiftl_mul_pow2 by lia.
+    change (2 ^ 2) with 4. change (2 ^ 5) with 32. lia. }
+  lia.
+Qed.
+
+Theorem decode_total data bias maxv : Forall is_byte data -> Z.of_nat (length data) <= 2 ^ 27 ->
+  (exists rs rest, decode data bias maxv = Ok rs rest) \/ decode data bias maxv = Err.
+Proof.
+  intros Hby Hlen. destruct data as [|h tree]; [right; reflexivity|].
+  unfold decode. set (bf := bf_of_bits (Z.land h 3)). set (H := Z.shiftr (Z.land h 124) 2).
+  assert (Hbf : bf_valid bf = true) by apply bf_of_bits_valid.
+  pose proof (header_height_range h) as HH. fold H in HH.
+  destruct (Z.ltb_spec (max_height bf) H); [right; reflexivity|].
+  unfold decode_nodes. destruct (Z.eqb_spec H 0); [left; eauto|].
+  rewrite <- (st_of_index_0 bf).
+  inversion Hby as [|? ? _ Htree]; subst.
+  pose proof (all_nodes_length bf tree Hbf) as HL. pose proof (bf_ge2 bf Hbf) as Hb2.
+  rewrite dec_loop_aloop by (try assumption; cbn [length]; nia).
+  cbn [skipn].
+  pose proof (aloop_safe bf H bias maxv Hbf ltac:(lia) (all_nodes bf tree) (all_nodes_bound bf tree Hbf Htree)
+                         0%nat [(0, 1)] []) as Hsafe.
+  assert (Hq0 : Forall (qwf bf H) [(0, 1)]).
+  { constructor; [|constructor]. unfold qwf. cbn [fst snd]. replace (H - 1 + 1) with H by lia. lia. }
+  specialize (Hsafe Hq0).
+  destruct (aloop bf H bias maxv (all_nodes bf tree) 0 [(0, 1)] []) as [i' q' out'| |]; cbn [lift]; [|right; reflexivity|contradiction].
+  destruct Hsafe as (Hi & Hql & _). cbn [length] in Hql, Hlen.
+  set (n := Z.of_nat (length q') mod U32).
+  assert (Hn : 0 <= n <= Z.of_nat (length q')).
+  { unfold n. split; [apply Z.mod_pos_bound; reflexivity|]. apply Z.mod_le; [lia | reflexivity]. }
+  assert (Hsk : exists s2, ibs_skip bf (st_of_index bf i') n = Some s2).
+  { unfold ibs_skip, st_of_index, U32 in *.
+    assert (Hbound : n * bf + 6 < 4294967296) by (change (2 ^ 27) with 134217728 in Hlen; nia).
+    destruct (bf_cases _ Hbf) as [E | [E | [E | E]]]; rewrite E in *; cbn [Z.eqb Pos.eqb orb].
+    - destruct (Z.leb_spec 4294967296 (n * 2)); [lia|].
+      destruct (Z.leb_spec 4294967296 (Z.of_nat (2 * (i' mod 4)) + n * 2)); [lia | eauto].
+    - destruct (Z.leb_spec 4294967296 (n * 4)); [lia|].
+      destruct (Z.leb_spec 4294967296 (Z.of_nat (4 * (i' mod 2)) + n * 4)); [lia | eauto].
+    - eauto.
+    - eauto. }
+  destruct Hsk as (s2 & ->).
+  destruct (Nat.leb _ _); [left; eauto | right; reflexivity].
+Qed.
